@@ -5,6 +5,8 @@ request issued twice (a verdict must not depend on the request before it).
 Tag accesses are counted by an instrumented Attribute subclass handed in through the supported `attribute_class`
 extension point (main()) / the tag's Attribute object (direct configuration).
 Second part: textual route paths against an independent reference parser.
+Third part: the client side -- sequences of calls on one client object, with its route_path_default changed in between; every request
+put on the wire must carry the route path the call spelled (argument, or the client's current default), per the reference decoder.
 """
 import itertools
 import json
@@ -244,6 +246,72 @@ def check_text(text, want):
 PAIR_PATHS = [None, [PL(1, 0)], [PL(1, 1)], [PL(16, 3), PL(1, 0)]]
 
 
+
+# ---- the client side: what route path a request carries --------------------------------------------------
+# a step = (new value of the client's route_path_default or KEEP, the route_path argument of the call)
+KEEP = "<keep>"
+CLIENT_DEFAULTS = [KEEP, "1/0", "2/1.2.3.4", "16/3/1/0", json.dumps([{"port": 3, "link": 7}])]
+CLIENT_ARGS = [None, "1/5", [{"port": 2, "link": "10.0.0.10"}], False]
+SPELLED = {"1/0": [PL(1, 0)], "2/1.2.3.4": [PL(2, "1.2.3.4")], "16/3/1/0": [PL(16, 3), PL(1, 0)], "1/5": [PL(1, 5)],
+           json.dumps([{"port": 3, "link": 7}]): [PL(3, 7)]}
+
+
+def check_client(steps):
+    """One client object, a sequence of calls; every request it puts on the wire must carry the route path its call spelled -- the
+    argument, or else the client's CURRENT default (documented as changeable per class or per instance) -- decoded by the reference codec."""
+    M = sim.mods()
+
+    class Capture(M.client.client):
+        def __init__(self):
+            super().__init__(host="localhost", port=44818, udp=True, broadcast=True)      # no connection is made
+            self.sent = []
+
+        def send(self, request, timeout=None):
+            self.sent.append(bytes(request))
+
+    c = Capture()
+    current = "1/0"                    # the documented stock default: port 1 (backplane), link 0 (the CPU slot)
+    bad = []
+    for i, (newdef, arg) in enumerate(steps):
+        if newdef != KEEP:
+            c.route_path_default = newdef
+            current = newdef
+        c.sent = []
+        kw = {} if arg is None else ({"route_path": arg, "send_path": ""} if arg is False else {"route_path": arg})
+        desc = "call %d of %r (default now %r, argument %r)" % (i + 1, steps, current, arg)
+        try:
+            c.read("T[0]", elements=1, **kw)
+        except Exception as exc:
+            bad.append(("client-call-failed", "%s raised %s: %s" % (desc, type(exc).__name__, exc)))
+            break
+        if len(c.sent) != 1:
+            bad.append(("client-frames", "%s put %d frames on the wire" % (desc, len(c.sent))))
+            break
+        try:
+            d = R.decode_request_frame(c.sent[0])
+        except Exception as exc:
+            bad.append(("client-frame-undecodable", "%s: %s: %s" % (desc, type(exc).__name__, exc)))
+            break
+        got = (d.get("unconnected_send") or {}).get("route_path")
+        if arg is False:
+            want = None
+        elif arg is None:
+            want = SPELLED[current]
+        else:
+            want = SPELLED[arg] if isinstance(arg, str) else [dict(x) for x in arg]
+        if (got or None) != (want or None):
+            bad.append(("client-carries-wrong-route-path", "%s: the request carries route path %r, spelled %r" % (desc, got, want)))
+    return bad
+
+
+def client_sequences(tier):
+    steps = [(d, a) for d in CLIENT_DEFAULTS for a in CLIENT_ARGS]
+    n = 2 if tier == "quick" else 3
+    for k in range(1, n + 1):
+        for seq in itertools.product(steps, repeat=k):
+            yield seq
+
+
 def shard(acc, item, tier, seed):
     if item[0] == "pairs":
         # two simulators one after the other in ONE process (as a test suite or an embedding application builds them): the second
@@ -266,6 +334,18 @@ def shard(acc, item, tier, seed):
                     for k, m in bad:
                         acc.violation("after-another-simulator:" + k, {"op": "pair", "first": first, "pname": second, "rp": rp, "service": service},
                                       "after a simulator with personality %s in the same process: %s" % (first, m))
+        return
+    if item[0] == "client":
+        _, k, K = item
+        for i, seq in enumerate(client_sequences(tier)):
+            if i % K != k:
+                continue
+            acc.ev()
+            if len(seq) > 1:
+                acc.ntc()
+            acc.outcome("client-calls=%d" % len(seq))
+            for kind, m in check_client(seq):
+                acc.violation(kind, {"op": "client", "steps": [list(x) for x in seq]}, m)
         return
     if item[0] == "cases":
         _, pname, how = item
@@ -303,12 +383,14 @@ def run(ctx):
         items.append(("pairs", pname))
     for k in range(8):
         items.append(("texts", k, 8))
+    for k in range(4):
+        items.append(("client", k, 4))
     return ctx.pmap(__name__, "shard", items)
 
 
 def guards(acc, ctx):
     g = []
-    for k in ("none:accept", "simple:accept", "simple:refuse", "path:accept", "path:refuse", "text-segments=1", "text-segments=2", "text-segments=falsey"):
+    for k in ("none:accept", "simple:accept", "simple:refuse", "path:accept", "path:refuse", "text-segments=1", "text-segments=2", "text-segments=falsey", "client-calls=1", "client-calls=2"):
         if not acc.outcomes.get(k):
             g.append("outcome %s never observed" % k)
     return g
@@ -324,6 +406,9 @@ def replay(case):
             pass
         bad, _ = check_case(case["pname"], dict(PERSONALITIES)[case["pname"]], "class", case["rp"], case["service"])
         return [m for k, m in bad]
+    if case["op"] == "client":
+        steps = [(a, (b if not isinstance(b, list) else [dict(x) for x in b])) for a, b in case["steps"]]
+        return [m for k, m in check_client(steps)]
     if case["op"] == "case":
         bad, _ = check_case(case["pname"], dict(PERSONALITIES)[case["pname"]], case["how"], case["rp"], case["service"])
     else:
